@@ -205,6 +205,18 @@ def m_airfoil(rng, sd, ac, st):
     w["airfoil"] = rng.choice(["nope", [[0.0, good], [1.0, "nope"]], [[0.0, "nope"], [1.0, good]], good.upper() + "_"])
 
 
+def m_unit_dash_state(rng, sd, ac, st):
+    # an unrecognised unit that contains the placeholder character "-"
+    st.pop("alpha", None)
+    st.pop("beta", None)
+    st["velocity"] = [100.0, rng.choice(["m-s^-1", "ft-s", "m/s-", "-m/s"])]
+
+
+def m_unit_dash_seg(rng, sd, ac, st):
+    w = ac["wings"][pick_wing(rng, ac, lambda w: "semispan" in w)]
+    w["semispan"] = [w["semispan"], rng.choice(["ft-in", "m-", "kg-f", "- "])]
+
+
 def m_unit_seg(rng, sd, ac, st):
     w = ac["wings"][pick_wing(rng, ac, lambda w: "semispan" in w)]
     b = w["semispan"]
@@ -270,7 +282,7 @@ def m_no_main(rng, sd, ac, st):
 
 
 VIOLATIONS = dict(units=m_units, solver=m_solver, profile=m_profile, weight=m_weight, velocity=m_velocity, alpha_vec=m_alpha_vec, frame=m_frame,
-                  unit_state=m_unit_state, id0=m_id0, side=m_side, span_neither=m_span_neither, span_both=m_span_both, dihedral_qc=m_dihedral_qc,
+                  unit_state=m_unit_state, unit_dash_state=m_unit_dash_state, unit_dash_seg=m_unit_dash_seg, id0=m_id0, side=m_side, span_neither=m_span_neither, span_both=m_span_both, dihedral_qc=m_dihedral_qc,
                   sweep_qc=m_sweep_qc, airfoil=m_airfoil, unit_seg=m_unit_seg, grid_len=m_grid_len, grid_ends=m_grid_ends, grid_mono=m_grid_mono,
                   grid_type=m_grid_type, parent=m_parent, flap_ends=m_flap_ends, no_main=m_no_main)
 
